@@ -89,6 +89,18 @@ CLAIMED["C13"] = dict(
          "generated file instead. Path derivations are judged directly on CLI runs (os.path taken as given), not modelled in Lean.",
 )
 
+CLAIMED["C19"] = dict(
+    text="Theorems about the model of generate_listing for every symbol table: the group listed under a file is a permutation of that "
+         "file's ordinary symbols (each exactly once), it is ordered by (value, name) with a proved-total, proved-transitive order, the "
+         "printed digits read back in base 8 as the magnitude of the value (at least six digits, sign printed separately), file headings "
+         "are complete and unique, the --lst path always ends in .lst. Tie: main_cli --lst on generated multi-file programs with negative "
+         "and > 16-bit constants x 9 output selectors; the .lst text and path compared with the model; every line judged directly against "
+         "Compiler.symbols and every listed label against the marker word that follows it in the image.",
+    design_ref="DESIGN.md §5 C19",
+    technique="Lean 4 theorems (insertion-sort permutation/sortedness, base-8 round trip by induction) + model/implementation correspondence on CLI runs",
+    note=NOTE + "That a label's value equals the offset of the byte after it is C02's theorem; here it is checked on every run with marker words.",
+)
+
 PENDING_REASON = "check not built yet (build in progress; see DESIGN.md §8 for the order)"
 
 
